@@ -4,6 +4,7 @@
 import FalconProofs.C02.Pair
 import FalconProofs.C02.Store
 import FalconProofs.C02.HiLo
+import FalconProofs.C02.Trap
 
 namespace Falcon.Isa.Mips
 open Falcon Falcon.Sem Falcon.Const
@@ -92,6 +93,91 @@ theorem instrOK_lui (rt : Reg) (i : BitVec 16) : InstrOK (.lui rt i) := by
   obtain ⟨σ', hr, hsim⟩ := lui_correct hσ rt i a 4094
   exact ⟨rfl, σ', hr, hsim, rfl⟩
 
+theorem c32_sext_typed {σ : State} (i : BitVec 16) :
+    TypedE σ (c32 (sext16Nat i)) ∧ (c32 (sext16Nat i)).bits = 32 ∧ value σ (c32 (sext16Nat i)) = .ok (ofBV (sext16 i)) :=
+  ⟨typed_const_ofBV (sext16 i), rfl, rfl⟩
+
+theorem instrOK_r3t (op : R3T) (rd rs rt : Reg) : InstrOK (.r3t op rd rs rt) := by
+  intro a f σ pc s' pc' u hl hσ hx
+  cases op
+  · simp only [liftI, Option.some.injEq] at hl; subst hl
+    simp only [exec, addOv] at hx
+    by_cases hov : (((absState σ).r rs).signExtend 33 + ((absState σ).r rt).signExtend 33).getLsbD 32 ≠ (((absState σ).r rs).signExtend 33 + ((absState σ).r rt).signExtend 33).getLsbD 31
+    · rw [if_pos hov] at hx; cases hx
+    · rw [if_neg hov] at hx
+      obtain ⟨h1, h2, h3⟩ := next_inj' hx; subst h1 h2 h3
+      obtain ⟨σ', hr, hsim⟩ := (trap_correct hσ .add (.inl rfl) rd (rx rs) (rx rt) _ _ (typed_rx hσ rs) (bits_rx rs) (value_rx hσ rs)
+        (typed_rx hσ rt) (bits_rx rt) (value_rx hσ rt) a).2 hov
+      exact ⟨rfl, σ', hr, hsim, rfl⟩
+  · simp only [liftI] at hl
+    by_cases h0 : rs = 0
+    · rw [if_pos h0] at hl; cases hl
+    · rw [if_neg h0] at hl
+      injection hl with hl; subst hl
+      simp only [exec, subOv] at hx
+      by_cases hov : (((absState σ).r rs).signExtend 33 - ((absState σ).r rt).signExtend 33).getLsbD 32 ≠ (((absState σ).r rs).signExtend 33 - ((absState σ).r rt).signExtend 33).getLsbD 31
+      · rw [if_pos hov] at hx; cases hx
+      · rw [if_neg hov] at hx
+        obtain ⟨h1, h2, h3⟩ := next_inj' hx; subst h1 h2 h3
+        obtain ⟨σ', hr, hsim⟩ := (trap_correct hσ .sub (.inr rfl) rd (rx rs) (rx rt) _ _ (typed_rx hσ rs) (bits_rx rs) (value_rx hσ rs)
+          (typed_rx hσ rt) (bits_rx rt) (value_rx hσ rt) a).2 hov
+        exact ⟨rfl, σ', hr, hsim, rfl⟩
+
+theorem instrOK_addi (rt rs : Reg) (i : BitVec 16) : InstrOK (.addi rt rs i) := by
+  intro a f σ pc s' pc' u hl hσ hx
+  simp only [liftI, Option.some.injEq] at hl; subst hl
+  simp only [exec, addOv] at hx
+  obtain ⟨tc, bc', vc⟩ := c32_sext_typed (σ := σ) i
+  by_cases hov : (((absState σ).r rs).signExtend 33 + (sext16 i).signExtend 33).getLsbD 32 ≠ (((absState σ).r rs).signExtend 33 + (sext16 i).signExtend 33).getLsbD 31
+  · rw [if_pos hov] at hx; cases hx
+  · rw [if_neg hov] at hx
+    obtain ⟨h1, h2, h3⟩ := next_inj' hx; subst h1 h2 h3
+    obtain ⟨σ', hr, hsim⟩ := (trap_correct hσ .add (.inl rfl) rt (rx rs) (c32 (sext16Nat i)) _ _ (typed_rx hσ rs) (bits_rx rs)
+      (value_rx hσ rs) tc bc' vc a).2 hov
+    exact ⟨rfl, σ', hr, hsim, rfl⟩
+
+/-- overflow: the lifted graph of add / addi / sub stops at the `IntegerOverflow` intrinsic -/
+theorem overflow_stops (i : Instr) (a : Nat) (f : Function) (σ : State) (pc : Word) (hl : liftI i a = some f) (hσ : StateOK σ)
+    (hx : exec i pc (absState σ) = .trap .overflow) :
+    f.cfg.entry = some 0 ∧ runGraph f 4096 ⟨0, 0, σ⟩ = .stop σ "err:intrinsic" := by
+  cases i
+  case r3t op rd rs rt =>
+    cases op
+    · simp only [liftI, Option.some.injEq] at hl; subst hl
+      simp only [exec, addOv] at hx
+      by_cases hov : (((absState σ).r rs).signExtend 33 + ((absState σ).r rt).signExtend 33).getLsbD 32 ≠ (((absState σ).r rs).signExtend 33 + ((absState σ).r rt).signExtend 33).getLsbD 31
+      · exact ⟨rfl, (trap_correct hσ .add (.inl rfl) rd (rx rs) (rx rt) _ _ (typed_rx hσ rs) (bits_rx rs) (value_rx hσ rs)
+          (typed_rx hσ rt) (bits_rx rt) (value_rx hσ rt) a).1 hov⟩
+      · rw [if_neg hov] at hx; cases hx
+    · simp only [liftI] at hl
+      by_cases h0 : rs = 0
+      · rw [if_pos h0] at hl; cases hl
+      · rw [if_neg h0] at hl
+        injection hl with hl; subst hl
+        simp only [exec, subOv] at hx
+        by_cases hov : (((absState σ).r rs).signExtend 33 - ((absState σ).r rt).signExtend 33).getLsbD 32 ≠ (((absState σ).r rs).signExtend 33 - ((absState σ).r rt).signExtend 33).getLsbD 31
+        · exact ⟨rfl, (trap_correct hσ .sub (.inr rfl) rd (rx rs) (rx rt) _ _ (typed_rx hσ rs) (bits_rx rs) (value_rx hσ rs)
+            (typed_rx hσ rt) (bits_rx rt) (value_rx hσ rt) a).1 hov⟩
+        · rw [if_neg hov] at hx; cases hx
+  case addi rt rs im =>
+    simp only [liftI, Option.some.injEq] at hl; subst hl
+    simp only [exec, addOv] at hx
+    obtain ⟨tc, bc', vc⟩ := c32_sext_typed (σ := σ) im
+    by_cases hov : (((absState σ).r rs).signExtend 33 + (sext16 im).signExtend 33).getLsbD 32 ≠ (((absState σ).r rs).signExtend 33 + (sext16 im).signExtend 33).getLsbD 31
+    · exact ⟨rfl, (trap_correct hσ .add (.inl rfl) rt (rx rs) (c32 (sext16Nat im)) _ _ (typed_rx hσ rs) (bits_rx rs)
+        (value_rx hσ rs) tc bc' vc a).1 hov⟩
+    · rw [if_neg hov] at hx; cases hx
+  case load op rt base off =>
+    exfalso
+    simp only [exec] at hx
+    cases op <;> simp only [doLoad] at hx <;> (repeat' split at hx) <;> first | (cases hx; done) | (injection hx with hx; cases hx)
+  case store op rt base off =>
+    exfalso
+    simp only [exec] at hx
+    cases op <;> simp only [doStore] at hx <;> (repeat' split at hx) <;> first | (cases hx; done) | (injection hx with hx; cases hx)
+  all_goals (first | (simp [liftI] at hl; done) | skip)
+  all_goals (exfalso; revert hx; simp only [exec]; intro hx; (repeat' split at hx) <;> first | cases hx | skip)
+
 /-- every non-branch instruction the mirror lifts is simulated correctly -/
 theorem instrOK (i : Instr) : InstrOK i := by
   cases i
@@ -100,6 +186,8 @@ theorem instrOK (i : Instr) : InstrOK i := by
   case shv op rd rt rs => exact instrOK_shv op rd rt rs
   case imm op rt rs i => exact instrOK_imm op rt rs i
   case lui rt i => exact instrOK_lui rt i
+  case r3t op rd rs rt => exact instrOK_r3t op rd rs rt
+  case addi rt rs i => exact instrOK_addi rt rs i
   case mfhi rd => exact instrOK_mfhi rd
   case mflo rd => exact instrOK_mflo rd
   case mthi rs => exact instrOK_mthi rs
